@@ -229,9 +229,49 @@ def run_forward(acc: Acc, recipe: dict, lock, mode: str) -> None:
     acc.traces += 1
 
 
+def run_failed_loads(acc: Acc) -> None:
+    """A rule whose load failed part-way (valid first conclusion, invalid second / missing term) next to valid rules:
+    whatever is_ready() answers, ready must imply processable - under every activation method."""
+    import numpy as np
+    from ..gen import recipes as R
+    from ..ref.rulegrammar import prop as P
+    bad_texts = ["if a is lo then o is lo and o is sideways", "if a is lo then o is lo and ghost is lo", "if a is lo then o is lo and o is",
+                 "if a is lo and b is then o is lo", "if a is lo then o is lo and o"]
+    for act in ACTIVATIONS:
+        for bad in bad_texts:
+            recipe = R.engine("failed-load", [R.in_var("a"), R.in_var("b")], [R.out_var("o")],
+                              [R.block("rb", [R.rule(P("a", (), "hi"), [("o", (), "hi")]), R.rule(P("b", (), "lo"), [("o", (), "lo")])],
+                                       "Minimum", "Maximum", "Minimum", activation=act)])
+            engine = R.build(recipe)
+            engine.rule_blocks[0].rules.insert(1, fl.Rule.create(bad))
+            try:
+                engine.rule_blocks[0].load_rules(engine)
+            except RuntimeError:
+                pass
+            case = {"forward": "failed-load", "text": bad, "activation": list(act)}
+            acc.case(("failed-load", bad, act), nontrivial=True)
+            ready = engine.is_ready([])
+            acc.transitions += 1
+            acc.cls("failed_load_ready" if ready else "failed_load_not_ready")
+            if not ready:
+                continue
+            for row in FORWARD_ROWS:
+                for iv, x in zip(engine.input_variables, row):
+                    iv.value = x
+                try:
+                    engine.process()
+                except Exception as ex:  # noqa: BLE001
+                    acc.violate("ready-but-raises", {"missing": "other", "activation": act[0], "mode": "failed-load", "type": type(ex).__name__},
+                                {**case, "row": list(row)}, "no exception", f"{type(ex).__name__}: {ex}",
+                                f"a rule whose load failed ({bad!r}) is in the block, is_ready() is True, process() raises {type(ex).__name__}: {str(ex)[:100]}")
+                    break
+
+
 def run_shard(tier: str, seed: int, shard):
     part, parts = shard
     acc = Acc(ID)
+    if part == "forward" and parts == 0:
+        acc.guard({"forward": "failed-load"}, run_failed_loads, acc)
     if part == "forward":
         for idx, recipe in enumerate(forward_recipes(tier)):
             if idx % FORWARD_PARTS != parts:
@@ -289,6 +329,9 @@ def summarize(tier: str, seed: int, merged: dict) -> dict:
 
 def replay(case: dict):
     acc = Acc(ID)
+    if case.get("forward") == "failed-load":
+        acc.guard(case, run_failed_loads, acc)
+        return acc.violations
     if case.get("forward"):
         from .c01 import fix_recipe
         lock = (case["lock"][0], float(case["lock"][1]))
